@@ -221,7 +221,14 @@ func main() {
 
 			return []func(){
 				func() { m.Lock(); c++; m.Unlock() },
-				func() { m.RLock(); _ = c; m.RUnlock(); m.Lock(); c++; m.Unlock() },
+				func() {
+					m.RLock()
+					_ = c
+					m.RUnlock()
+					m.Lock()
+					c++
+					m.Unlock()
+				},
 			}
 		}
 
